@@ -2,6 +2,7 @@ package mcrt
 
 // WaitGroup models sync.WaitGroup.
 type WaitGroup struct {
+	hist    uint64
 	n       int
 	waiters []*Thread
 	toks    []*tok
@@ -29,6 +30,7 @@ func (wg *WaitGroup) Wait() {
 
 // Mutex models sync.Mutex and sync.RWMutex.
 type Mutex struct {
+	hist    uint64
 	locked  bool
 	readers int
 	waiters []*Thread
